@@ -5,6 +5,7 @@ import (
 	"strings"
 
 	"github.com/robertkrimen/otto"
+	"github.com/robertkrimen/otto/ast"
 	"github.com/robertkrimen/otto/parser"
 
 	"verif/lib/harness"
@@ -61,6 +62,7 @@ var findings = []finding{
 		}
 		return ""
 	}},
+	{"C02-PARSEFUNCTION-WRAPPER", func() string { return wRun(`Function("", "}) + (function(){")`) }},
 	{"C02-REGEXP-PROTOTYPE-NIL", func() string { return wRun(`RegExp.prototype.test("x")`) }},
 	{"C02-TOLOCALESTRING-TAG", func() string { return wRun(`(1).toLocaleString("not a tag")`) }},
 	{"C02-OBJECT-ASSIGN-PRIMITIVE", func() string { return wRun(`Object.assign(1, {a:1})`) }},
@@ -299,6 +301,31 @@ func skipOttoCallNil(src string) bool {
 		empty = err == nil && p != nil && len(p.Body) == 0
 	})
 	return empty
+}
+
+// breaksFunctionWrapper: parser.ParseFunction wraps its arguments as (function(PARAMS) {\nBODY\n}) and
+// type-asserts the result; a text that closes the wrapper early parses to something else and the
+// assertion panics (C02-PARSEFUNCTION-WRAPPER). The same parser decides membership of the class.
+func breaksFunctionWrapper(params, body string) bool {
+	if !known("C02-PARSEFUNCTION-WRAPPER") {
+		return false
+	}
+	var breaks bool
+	guard(func() {
+		p, err := parser.ParseFile(nil, "", "(function("+params+") {\n"+body+"\n})", 0)
+		if err != nil || p == nil {
+			return
+		}
+		breaks = true
+		if len(p.Body) == 1 {
+			if st, ok := p.Body[0].(*ast.ExpressionStatement); ok {
+				if _, ok := st.Expression.(*ast.FunctionLiteral); ok {
+					breaks = false
+				}
+			}
+		}
+	})
+	return breaks
 }
 
 func knownSourcePanic(p escaped) string { return "" }
